@@ -9,7 +9,7 @@ use serde_json::{json, Value};
 use std::collections::BTreeSet;
 
 pub fn base_cfg(role: Role, len: usize, blk: usize, ws: u16) -> XCfg {
-    XCfg { role, blk, ws, len, handshake: false, timeout_s: 5, repeat: 1, clean: true, alpha: 0, silence_after: None, error_at: None, ack_every_copy: false, snapshot_tail: false, noise: None, noise_resume: false, send_fail_at: None, error_latin1: false }
+    XCfg { role, blk, ws, len, handshake: false, timeout_s: 5, repeat: 1, clean: true, alpha: 0, silence_after: None, error_at: None, ack_every_copy: false, snapshot_tail: false, noise: None, noise_resume: false, send_fail_at: None, error_latin1: false, error_code: 0 }
 }
 
 pub fn cell_spec(cfg: &XCfg, bound: u64, max_exec: u64, props: &[&str]) -> Value {
@@ -312,6 +312,22 @@ pub fn c07_cells(tier: Tier) -> Vec<Value> {
             }
         }
     }
+    // every error number 1..7 (0 is used above) at every point of a short lock-step and a windowed transfer, both roles
+    for role in [Role::Sender, Role::Receiver] {
+        for ws in [1u16, 3] {
+            let len = 2 * ws as usize * blk + 3;
+            let points = (len / blk + 1) / ws as usize + 3;
+            for code in 1..=7u16 {
+                for k in 0..=points {
+                    let mut cfg = base_cfg(role, len, blk, ws);
+                    cfg.alpha = 3;
+                    cfg.error_at = Some(k);
+                    cfg.error_code = code;
+                    cells.push(cell_spec(&cfg, 0, MAXE, &p));
+                }
+            }
+        }
+    }
     // noise family: k = 0..=9 non-progress answers of one kind (duplicate, future/gap, stray, undecodable) at the start or
     // in the middle of a transfer, then silence: the retry counter must still bound the wait
     for role in [Role::Sender, Role::Receiver] {
@@ -551,6 +567,15 @@ pub fn c02_check(tier: Tier) -> Outcome {
                         let mut s = cell_spec(&x, 0, MAXE, &["C02"]);
                         s["fsize"] = json!((j * 8 - off) as u64);
                         fs.push(s);
+                        if ws >= 2 && clean {
+                            // the write error coincides with one adversarial arrival (duplicate, gap, old block, stray ...):
+                            // the flush on an out-of-sequence block must be as strict as the one at the window's end
+                            let mut x1 = x.clone();
+                            x1.alpha = 0;
+                            let mut s1 = cell_spec(&x1, 1, MAXE, &["C02"]);
+                            s1["fsize"] = json!((j * 8 - off) as u64);
+                            fs.push(s1);
+                        }
                     }
                 }
             }
